@@ -6,9 +6,9 @@ from c01 import U, EPS, in_normal, NORMAL_MIN
 
 PID = "C03"
 MODEL_TARGETS = ["Proofs/Eval.vo", "Amount/F64.vo", "Amount/Dec.vo", "Gen/Catalogue.vo"]
-PROOF_TARGETS = ["Props/C03.vo", "Pinned/C03.vo", "Props/Accuracy.vo", "Pinned/Accuracy.vo", "Props/AccuracyDec.vo", "Pinned/AccuracyDec.vo"]
-PROPS = ["Props/C03.v", "Props/Accuracy.v", "Props/AccuracyDec.v"]
-COQCHK = ["QV.Props.C03", "QV.Props.Accuracy", "QV.Props.AccuracyDec"]
+PROOF_TARGETS = ["Props/C03.vo", "Pinned/C03.vo", "Props/Accuracy.vo", "Pinned/Accuracy.vo", "Props/AccuracyDec.vo", "Pinned/AccuracyDec.vo", "Props/Programs.vo", "Pinned/Programs.vo"]
+PROPS = ["Props/C03.v", "Props/Accuracy.v", "Props/AccuracyDec.v", "Props/Programs.v"]
+COQCHK = ["QV.Props.C03", "QV.Props.Accuracy", "QV.Props.AccuracyDec", "QV.Props.Programs"]
 TRUSTED_BASE = [
     "Coq 8.16.1 kernel (coqc); coqchk in the thorough tier",
     "translator rs2j+j2v: HasRefUnit::add/sub/div/equiv_amount, LinearScaledUnit::ratio and the generated Add/Sub/Div<Self> forwarding impls are translated from the current source (Gen/Kernels.v)",
